@@ -81,7 +81,9 @@ def _mk_pool():
 
 
 POOL = _mk_pool()
-STATIC = {"i1": 1, "f1": 1.0, "s1": "1", "b1": True, "i2": 2, "none": None}
+STATIC = {"i1": 1, "f1": 1.0, "s1": "1", "b1": True, "i2": 2, "none": None,
+          # containers that print alike in some notations: tuple / list, int / str keys
+          "t01": (0, 1), "l01": [0, 1], "dk_i": {1: 10}, "dk_s": {"1": 10}, "nest_t": ((0, 1), 2), "nest_l": ([0, 1], 2)}
 
 step_st = st.one_of(
     st.tuples(st.just("map"), st.sampled_from(["lam_a", "lam_b", "fac1", "fac2"])).map(list),
@@ -125,7 +127,7 @@ def name_cases(draw):
             s[1] = draw(st.sampled_from(["red", "red_other"]))
         elif s[0] == "stack":
             s[1] = draw(st.sampled_from([a for a in (0, 1, -1) if a != s[1]]))  # same operation, other static argument (axis)
-    return {"kind": "names", "shape": shape, "p1": p1, "p2": p2, "union": draw(st.sampled_from(["from_actions", "add", "graph_add"])),
+    return {"kind": "names", "shape": shape, "p1": p1, "p2": p2, "union": draw(st.sampled_from(["from_actions", "add", "graph_add", "single"])),
             "lambda_sources": draw(st.booleans())}
 
 
@@ -321,7 +323,12 @@ def run_names(c, stats: Stats | None) -> tuple[bool, list[str]]:
     distinct = {_ident(n, memo_eq, value_eq=True) for group in by_name.values() for n in group}
     # union
     try:
-        if c["union"] == "from_actions":
+        if c["union"] == "single":
+            # one action alone (its ancestry may build one sub-expression several times: distinct node objects, one name)
+            g = Cascade.from_actions([a1])._graph
+            memo_s: dict = {}
+            distinct = {_ident(n, memo_s, value_eq=True) for n in walk(Graph(list(a1.graph().sinks)))}
+        elif c["union"] == "from_actions":
             g = Cascade.from_actions([a1, a2])._graph
         elif c["union"] == "add":
             g = (Cascade(a1.graph()) + Cascade(a2.graph()))._graph
